@@ -354,17 +354,30 @@ def find_irrelevant_type(etype: tp.Type, types: List[tp.Type],
         if t not in relevant_types and (
             t.is_type_constructor() or t.name != etype.name)
     ]
-    if not available_types:
-        return None
-    t = utils.random.choice(available_types)
-    if t.is_type_constructor():
-        # Must instantiate the given type constructor. Also pass the map of
-        # type arguments in order to pass type arguments that are irrelevant
-        # with any parameterized type created by this type constructor.
-        type_list = [t for t in types if t != etype]
-        return get_irrelevant_parameterized_type(
-                t, type_list, type_args_map, factory)
-    return t
+    while available_types:
+        t = utils.random.choice(available_types)
+        available_types.remove(t)
+        if t.is_type_constructor():
+            # Must instantiate the given type constructor. Also pass the map
+            # of type arguments in order to pass type arguments that are
+            # irrelevant with any parameterized type created by this type
+            # constructor.
+            type_list = [t for t in types if t != etype]
+            t = get_irrelevant_parameterized_type(
+                    t, type_list, type_args_map, factory)
+            if t is None:
+                continue
+        # The candidates were filtered by comparing them with the supertypes
+        # and subtypes found above. This misses, e.g., the top type, a
+        # parameterized candidate related to the given type through variance,
+        # or an instantiation of a generic subclass. So, check the chosen type
+        # against the subtyping relation, and try another candidate if it is
+        # related to the given type.
+        if (t == factory.get_any_type() or t.is_subtype(etype) or
+                etype.is_subtype(t)):
+            continue
+        return t
+    return None
 
 
 def _update_type_constructor(etype, new_type):
